@@ -17,6 +17,10 @@ pub struct Known {
     #[serde(default)]
     pub commit: String,
     pub what: String,
+    /// a recorded minimal input exhibiting the finding (path relative to /verif), replayed at
+    /// the start of every run so that the KNOWN-FINDING line does not depend on the search
+    #[serde(default)]
+    pub replay: Option<String>,
 }
 
 pub fn load_known(verif: &Path) -> Vec<Known> {
@@ -231,7 +235,7 @@ fn components() -> Value {
 }
 
 pub fn evidence_json(s: &Stats) -> Value {
-    let unreached: Vec<&str> = crate::probes::ALL.iter().cloned().filter(|p| !s.probes.contains_key(*p)).collect();
+    let unreached: Vec<&str> = crate::probes::relevant(&s.id).iter().cloned().filter(|p| !s.probes.contains_key(*p)).collect();
     let rule = match s.id.as_str() {
         "C19" => "each case = one generated world + argv (check-mode or write-mode history, faults, missing paths) executed under K+1 seeded schedules from different strategies and >=3 thread counts; a run counts as non-trivial when the scheduler had >=1 decision with >=2 runnable tasks AND the world contains a diff, an error or a fired fault; distinct = distinct (world+argv hash, schedule signature) pairs, schedule signature = hash of the executed (task, operation) sequence",
         "C20" => "first the finite sweep option x documented value x carrier is enumerated completely (one simulated run each), then random sweep entries and malformed-carrier worlds; non-trivial = scheduler had a real choice; distinct = distinct (world+argv hash, schedule signature) pairs",
@@ -262,6 +266,7 @@ pub fn evidence_json(s: &Stats) -> Value {
             "faults_planned": s.faults_planned,
             "faults_fired": s.faults_fired,
             "probes": s.probes,
+            "probes_relevant_to_this_property": crate::probes::relevant(&s.id),
             "probes_unreached": unreached,
             "families": s.families,
             "exit_statuses": s.statuses.iter().map(|(k, v)| (k.to_string(), *v)).collect::<BTreeMap<String, u64>>(),
